@@ -49,17 +49,17 @@ def run_seg(c):
     den, mul = c.get("den", 1), c.get("mul", 1)
     if den not in (1, 3, 7, 10) or mul not in (1, 10):
         raise Skip("malformed")
-    if den == 1:
-        mul = 1
+    if den == 1 or c["inf"]:
+        mul = 1  # rays keep inexact coordinates below 2: their end point at infinity is not normalised by the library
     a, b = np.array(c["a"], float) * mul / den, np.array(c["b"], float) * mul / den
     if c["inf"] is None and np.array_equal(a, b):
         raise Skip("degenerate")
     if c["inf"] and not np.any(b if c["inf"] == "b" else a):
         raise Skip("zero direction")
     sa, sb = C.scale_value(c["sa"]), C.scale_value(c["sb"])
-    if mul != 1:
-        # coordinates of size 10 - 17 already: no further factor (up to 12) on the representatives, the interval test of the library works
-        # with products of four coordinates and an absolute tolerance (moderate magnitudes only)
+    if den != 1:
+        # inexact coordinates (of size up to 17): no further factor (up to 40) on the representatives - the interval test of the library works
+        # with products of four coordinates and an absolute tolerance, exact for integers but not for these (moderate magnitudes only)
         sa, sb = (1.0 if sa > 0 else -1.0), (1.0 if sb > 0 else -1.0)
     if c["inf"]:
         # rays: keep the representative of the direction positive (its sign selects the half line)
